@@ -391,6 +391,7 @@ type hist struct {
 	done      bool // a panic or a judgement ended the history
 	kind      string
 	nFind     int
+	mayPanic  bool // malformed histories (dead revert ids, overdrafts, negative amounts) are expected to panic
 }
 
 func newHist(run *hx.Run, kind string) *hist {
@@ -628,6 +629,10 @@ func (h *hist) do(act string) bool {
 	if panicked {
 		h.obs = append(h.obs, "panic")
 		h.run.Count("outcome:panic:" + f[0])
+		if !h.mayPanic {
+			// a well-formed history (live revert ids, no overdraft) must never panic
+			h.violate("panic", "panic:"+f[0], "the real code panicked on a well-formed history: "+out)
+		}
 		h.done = true
 		return false
 	}
@@ -1157,6 +1162,7 @@ func main() {
 			panic(err)
 		}
 		h := newHist(run, "replay")
+		h.mayPanic = true
 		for _, a := range strings.Fields(rep.Input)[1:] {
 			if !h.do(a) {
 				break
@@ -1198,6 +1204,7 @@ func main() {
 			g.malformed, kind = true, "malformed"
 		}
 		h := newHist(run, kind)
+		h.mayPanic = g.malformed
 		h.generate(gr, g)
 		h.finish()
 	}
